@@ -74,7 +74,9 @@ def run(ctx, rep):
         rep.missing("R16.1", ex)
     ir = "fastpasta::init::run"
     if ir in f.fns:
-        b = cg.body(ir)
+        # run() with the helpers of its module inlined (the processing code may be computed by an extracted helper)
+        from ..mir import Body as _Body, inline_fn as _inline
+        b = _Body(_inline(f, ir, lambda c: c.startswith("fastpasta::init::") and "{closure" not in c, max_depth=3, max_blocks=2000))
         ex_calls = [(bb, t) for bb, t, cal, c in b.calls() if cal == ex]
         ok = len(ex_calls) == 1
         if ok:
@@ -86,12 +88,21 @@ def run(ctx, rep):
             pl = ex_calls[0][1]["args"][0]
             o = b.origin(pl)
             vals = set()
-            if o[0] == "local":
-                for bb, idx, kind, node in b.defs.get(o[1], []):
-                    if kind == "assign" and node["rv"]["k"] == "use" and "c" in node["rv"]["op"]:
-                        vals.add(node["rv"]["op"]["c"].get("int"))
+            def _consts(op_, depth_=0):
+                out_ = set()
+                for o_ in b.origins(op_):
+                    if isinstance(o_, tuple) and o_ and o_[0] == "const" and isinstance(o_[1].get("int"), int):
+                        out_.add(o_[1]["int"])
+                    elif isinstance(o_, tuple) and o_ and o_[0] == "local" and not o_[2] and depth_ < 4 and len(b.defs.get(o_[1], [])) > 0:
+                        for bb_, idx_, kind_, node_ in b.defs.get(o_[1], []):
+                            if kind_ == "assign" and node_["rv"]["k"] == "use":
+                                out_ |= _consts(node_["rv"]["op"], depth_ + 1)
+                            else:
+                                out_.add("?")
                     else:
-                        vals.add("?")
+                        out_.add("?")
+                return out_
+            vals = _consts(pl)
             ok = vals == {0, 1}
             rep.check(ok, "R16.1", "R16.1|run_codes", "run() passes only the processing codes 0/1 to exit()", ir, "exit() receives %s" % sorted(map(str, vals)))
         # config failure returns 1 before anything else
